@@ -106,6 +106,59 @@ def first_diff(a, b, path=None):
     return None
 
 
+def iter_diffs(a, b, path=None):
+    """All differing locations (same conventions as first_diff)."""
+    path = path or []
+    if _is_number(a) and _is_number(b):
+        if a != b:
+            yield _pattern(path), a, b
+        return
+    if type(a) is not type(b):
+        yield _pattern(path), a, b
+        return
+    if isinstance(a, dict):
+        for key in dict.fromkeys(list(a) + list(b)):
+            if key not in a or key not in b:
+                yield _pattern(path + [f".{key}"]), a.get(key), b.get(key)
+            else:
+                yield from iter_diffs(a[key], b[key], path + [f".{key}"])
+        return
+    if isinstance(a, list):
+        if len(a) != len(b):
+            yield _pattern(path + ["[len]"]), len(a), len(b)
+            return
+        for x, y in zip(a, b):
+            yield from iter_diffs(x, y, path + ["[]"])
+        return
+    if a != b:
+        yield _pattern(path), a, b
+
+
+def canon_diffs(expected: dict, actual: dict, limit=12):
+    """Like canon_diff but returns up to ``limit`` distinct (class, detail)."""
+    out, seen = [], set()
+
+    def add(cls, detail):
+        if cls not in seen and len(out) < limit:
+            seen.add(cls)
+            out.append((cls, detail))
+
+    for where, a, b in iter_diffs(expected["root"], actual["root"]):
+        add(f"root{where}", f"expected {_short(a)} got {_short(b)}")
+    for key, body in expected["defs"].items():
+        other = actual["defs"].get(key)
+        cls = key.split(":", 1)[0]
+        if other is None:
+            add(f"missing-object:{cls}", key)
+            continue
+        for where, a, b in iter_diffs(body, other):
+            add(f"{cls}{where}", f"{key}: expected {_short(a)} got {_short(b)}")
+    for key in actual["defs"]:
+        if key not in expected["defs"]:
+            add(f"extra-object:{key.split(':', 1)[0]}", key)
+    return out
+
+
 def _is_number(value) -> bool:
     return isinstance(value, (int, float)) and not isinstance(value, bool)
 
